@@ -502,6 +502,15 @@ func (st *runState) checkDocument(r *reqRec, add func(p, oracle, sig, detail str
 		}
 		return
 	}
+	if rq.Kind == "prom_range" || rq.Kind == "prom_instant" || ((rq.Kind == "query_range" || rq.Kind == "query") && !passThrough(rq.Query)) {
+		// metric results: shape, one object per series, timestamps; served values where ClickHouse computes everything
+		if m, ok := doc.(map[string]any); ok && m["status"] == "success" {
+			if d, ok := m["data"].(map[string]any); ok && (d["resultType"] == "matrix" || d["resultType"] == "vector") {
+				st.checkMatrix(r, d, add)
+			}
+		}
+		return
+	}
 	if rq.Kind != "query_range" && rq.Kind != "query" {
 		return
 	}
@@ -610,6 +619,14 @@ func (st *runState) checkMatrix(r *reqRec, d map[string]any, add func(p, oracle,
 		}
 		served[k][strconv.FormatFloat(row.Value, 'f', -1, 64)] = true
 	}
+	// the served values reach the encoder unchanged only when one data statement produced the whole result
+	nd := 0
+	for _, s := range r.Stmts {
+		if s.Class == "data" {
+			nd++
+		}
+	}
+	oneData := nd == 1
 	seen := map[string]int{}
 	for _, o := range res {
 		om, _ := o.(map[string]any)
@@ -659,7 +676,7 @@ func (st *runState) checkMatrix(r *reqRec, d map[string]any, add func(p, oracle,
 				add("C15", "wrong-shape", "sample value is not a string", fmt.Sprintf("req%d %s sample=%v", r.ID, r.Path, v))
 				return
 			}
-			if passThroughMetric(rq.Query) && served[k] != nil && !served[k][sv] {
+			if (rq.Kind == "query_range" || rq.Kind == "query") && passThroughMetric(rq.Query) && oneData && served[k] != nil && !served[k][sv] {
 				if f, err := strconv.ParseFloat(sv, 64); err != nil || !served[k][strconv.FormatFloat(f, 'f', -1, 64)] {
 					add("C15", "value-altered", "a numeric value is not rendered as it was served",
 						fmt.Sprintf("req%d %s: series %s carries %q; values served for that series: %v", r.ID, r.Path, k, sv, keysOfBool(served[k])))
